@@ -472,7 +472,9 @@ def corruptions(doc, rng, count):
       cands = [i for i, nd in enumerate(N, 1) if nd["kind"] not in ("text",)]
       i = rng.choice(cands)
       name, val = rng.choice(UNKNOWN_ATTRS)
-      out.append((base, (("node", i), name, val), {"attr": "unknown:" + name.split("}")[-1], "on": N[i - 1]["kind"]}, False))
+      foreign = name.startswith("{") and not name.startswith("{http://www.w3.org/ns/ttml")
+      out.append((base, (("node", i), name, val), {"attr": "unknown:" + name.split("}")[-1], "on": N[i - 1]["kind"],
+                                                    "foreign": foreign}, False))
   return out
 
 
